@@ -10,6 +10,7 @@ Line-protocol driver for C10 (requests and responses are flat int lists, see `ha
   unpack <bytes>                    -> ok <decoded>          | err <kind>
   unpacka <k> {n p q}*k <bytes>     -> ok <decoded> after the cis/trans re-attachment with `centers`
   packlen <bytes>                   -> ok <n>
+  unpach <bytes>                    -> ok 0 <decoded> (molecule) | ok 1 <nr> <decoded>* <ng> <decoded>* <np> <decoded>* (reaction)
   rpack <nr> <ng> <np> <mol>*       -> ok <bytes>
   runpack <bytes>                   -> ok <nr> <decoded>* <ng> <decoded>* <np> <decoded>*
   rpacklen <bytes>                  -> ok <nr> a* <ng> a* <np> a*
@@ -128,6 +129,10 @@ def handle (line : String) : String :=
             showRes showDecoded ((decode (bytesOf bytes)).map fun d => { d with atoms := attach cs d.atoms d.cisTrans })
           | none => "err parse"
         | [] => "err parse"
+      | "unpach" =>
+        showRes (fun u => match u with
+          | .mol d => "0 " ++ showDecoded d
+          | .rxn r => "1 " ++ showRoles showDecoded r) (unpach (bytesOf xs))
       | "packlen" => showRes toString (packLen (bytesOf xs))
       | "rpack" =>
         match xs with
